@@ -36,8 +36,8 @@ RULE = ('histories over the name lattice /a, /a/b, /a/b/c, /x (with/without impl
         'half, lifetime-1, before / behind the other events of that millisecond; all together; two rotating plans for the Nack-reason '
         'and shutdown tables in quick); random well-formed histories with a random subset of awaits deferred; oracle clause '
         'timeout-not-at-deadline (every InterestTimeout at express time + lifetime, also in the well-formed histories). Judged by the '
-        'specification for appv2; the legacy front-end counts the lifetime from the first await (docs/C03.md) and is compared with its '
-        'model only (counted as v1.deferred-await.not-judged). non-trivial = at least one Interest and more than two events')
+        'specification in both front-ends (the legacy one counted the lifetime from the first await: genuine defect found by this '
+        'family, fixed by 949ef3c; legacy: no VDone before the Await, its validator is called by the awaitable). non-trivial = at least one Interest and more than two events')
 ASSUMPTIONS = ['asyncio (CPython 3.12: Future, Task.cancel, wait_for/timeouts.Timeout, FIFO ready queue) is the event '
                'alphabet of the model; the three tie modes are the linearisations a loop turn permits',
                'validators are harness coroutines that answer at once or wait on a harness future; validators raising '
